@@ -13,7 +13,8 @@ CHECKS = {
              "bookkeeping, memory safety, pickle round trip and refinement of the abstract scheduler exhaustively for "
              "small constants. The code is bound to it in both directions: TLC simulation behaviours are replayed into "
              "the real cffi heap / HeapScheduler / ListScheduler / pickle+dill with the C array compared entry by entry "
-             "after every call, and long seeded histories executed on the real schedulers (crossing the 64/128 "
+             "after every call (each behaviour under two order-preserving embeddings of the time lattice: small floats, and "
+             "quotient 2^50+q with remainders 2^-45 apart), and long seeded histories executed on the real schedulers (crossing the 64/128 "
              "reallocations and the counter wrap-around) are validated line by line by TLC and re-run through heap.c "
              "under ASan+UBSan.",
         design="5/C06",
@@ -65,8 +66,8 @@ CHECKS = {
         text="CellOcc.tla transcribes SingleActiveCellOccupancy and the generators of the excluded-cells, surplus and "
              "cell-veto/cell-bounding families; TLC checks that their targets partition the other relevant units in every "
              "reachable state of five configurations, and simulation behaviours are replayed into the real classes with the "
-             "real generators. FactorMap.tla enumerates well-formed factor files; each is written to disk and read by the real "
-             "FactorTypeMaps, whose in-states must equal the model's.",
+             "real generators. FactorMap.tla enumerates well-formed factor files; each is written to disk (indices of a line ascending, "
+             "and shuffled) and read by the real FactorTypeMaps, whose in-states must equal the model's.",
         design="5/C10",
         note="Ring of 3-6 cells, 4 units; factor files with one local and one inter-object factor."),
     "C11": dict(
@@ -131,12 +132,15 @@ CHECKS = {
         note="The model is bound to the code by outcome (equality, termination, no leftover process) under sampled schedules, "
              "not by step-wise validation of worker traces. Configurations whose out-state computation draws no random numbers."),
     "C05": dict(
-        technique="TLA+ model checking (TLC) of Lifting.tla + spec->code replay of every model evaluation into the real lifting classes",
+        technique="TLA+ model checking (TLC) of Lifting.tla + trace validation (TraceLifting.tla) of what the real lifting classes and "
+                  "the real composite-object event handler select over every unit piece of the draw range",
         text="Lifting.tla transcribes Lifting.insert/reset and the three get_active_identifier on integer rates; TLC evaluates "
-             "flow balance, never-non-negative and reset clauses for every zero-sum table (length <= 4) and explores the object "
-             "as a state machine. Every (scheme, table, active unit, draw) of the model, including interval end points, is then "
-             "executed on the real classes (one long-lived object per scheme reset between tables, and a fresh object), and the "
-             "selected unit and the ranges of the uniform draws must equal the model's.",
+             "flow balance, never-non-negative and reset clauses for every zero-sum table (length <= 5 quick / 6 thorough) and "
+             "explores the object as a state machine. Every table, active unit and unit piece of the draw range (plus end points) "
+             "is executed on the real classes (one long-lived object per scheme reset between tables, and a fresh object) and on "
+             "the real TwoCompositeObjectSummedBoundingPotentialEventHandler (2+2 and 3+3 point masses, scripted pair derivatives); "
+             "TLC counts the selections per table: inflow into k equals |t[k]|, nothing non-negative is selected. The routing "
+             "itself is not prescribed (a differing but balanced routing is a note, not a violation).",
         design="5/C05",
         note="Trusted: TLC, harness/drive_lifting.py (scripted random.uniform). Integer tables only: near-cancelling float tables "
              "are outside the lattice. Draws: one representative per unit piece of each interval + end points."),
@@ -144,7 +148,7 @@ CHECKS = {
         technique="TLA+ model checking (TLC) of Time.tla on a dyadic lattice + table replay into base.time.Time + trace validation "
                   "of boundary doubles on order-preserving float keys (TraceTime.tla, F64.tla)",
         text="Time.tla defines add/sub/from_float/comparisons in exact fixed point; TLC checks normalisation, exactness, monotony, "
-             "rational order and infinity clauses for all lattice values and the run clock as a state machine. All model "
+             "rational order and infinity clauses for all lattice values and the run clock as a state machine (incl. Update/Reassign of a long-lived object). All model "
              "evaluations are replayed into the real Time with quotient offsets 0, 2^31, 2^52-16 (exact equality). Boundary and "
              "random doubles are evaluated on the real class, logged as 64-bit order keys and measured residuals, and judged "
              "clause by clause by TLC.",
